@@ -303,13 +303,54 @@ R3_EXCEPTIONS = {
 }
 
 
-def r3_underflow(ctx, prog, rule_id='C17.R3', text='unsigned subtractions that feed sizes, indices or lengths cannot wrap', floor=15, only=None):
+def reported_vars(f):
+    """Locals whose value flows (through plain assignments and arithmetic) into a store through a pointer parameter (*pulLen = size): the lengths a call reports."""
+    ptrs = {p['var']['name'] for p in f.get('params', []) if p.get('var') and ('*' in p['type'] or 'PTR' in p['type'])}
+    rep = set()
+    for _ in range(5):
+        n0 = len(rep)
+        for n in walk(f['body']):
+            tgt, rhs = None, None
+            if n.get('k') == 'Assign':
+                a = n['a']
+                if a.get('k') == 'Un' and a.get('op') == '*' and a['e'].get('k') == 'Var' and a['e']['name'] in ptrs:
+                    tgt = 'OUT'
+                elif a.get('k') == 'Var' and a['name'] in rep:
+                    tgt = a['name']
+                rhs = n['b']
+                if tgt:
+                    rep |= {x['name'] for x in walk(rhs) if x.get('k') == 'Var' and x.get('kind') == 'local'}
+            elif n.get('k') == 'Decl':
+                for d in n['decls']:
+                    if d['var']['name'] in rep and d.get('init') is not None:
+                        rep |= {x['name'] for x in walk(d['init']) if x.get('k') == 'Var' and x.get('kind') == 'local'}
+        if len(rep) == n0:
+            break
+    return rep
+
+
+def r3_underflow(ctx, prog, rule_id='C17.R3', text='unsigned subtractions that feed sizes, indices or lengths cannot wrap', floor=15, only=None, mode='sizes'):
     r = ctx.rule(rule_id, text, floor=floor, engine='E8')
     for f in sorted(prog.functions.values(), key=lambda f: (f['file'], f['line'])):
         if only is not None and f['qname'] not in only:
             continue
         subs = []
-        for c in walk(f['body']):
+        if mode == 'reported':
+            rep = reported_vars(f)
+            for c in walk(f['body']):
+                tgt, rhs = None, None
+                if c.get('k') == 'Assign' and ((c['a'].get('k') == 'Var' and c['a']['name'] in rep) or (c['a'].get('k') == 'Un' and c['a'].get('op') == '*')):
+                    tgt, rhs = c, c['b']
+                    for b in walk(rhs):
+                        if b.get('k') == 'Bin' and b['op'] == '-' and b.get('uns'):
+                            subs.append((c, b))
+                elif c.get('k') == 'Decl':
+                    for d in c['decls']:
+                        if d['var']['name'] in rep and d.get('init') is not None:
+                            for b in walk(d['init']):
+                                if b.get('k') == 'Bin' and b['op'] == '-' and b.get('uns'):
+                                    subs.append((c, b))
+        for c in (walk(f['body']) if mode == 'sizes' else ()):
             if c.get('k') in ('Call',) and short(c.get('callee')) in SIZE_SINKS:
                 args = list(c.get('args', []))
                 if short(c.get('callee')) == 'substr' and (c.get('callee') or '').startswith('std::'):
@@ -384,7 +425,7 @@ def r3_underflow(ctx, prog, rule_id='C17.R3', text='unsigned subtractions that f
         r.paths += u.paths_returned
         for c, b in subs:
             a0, b0 = canon(b['a']), canon(b['b'])
-            sink = short(c.get('callee')) if c.get('k') == 'Call' else ('index' if c.get('k') == 'Index' else 'new[]')
+            sink = short(c.get('callee')) if c.get('k') == 'Call' else ('index' if c.get('k') == 'Index' else ('reported length' if c.get('k') in ('Assign', 'Decl') else 'new[]'))
             site = '%s - %s used by %s' % (a0, b0, sink)
             hits = u.hits.get(id(b), [])
             bad = None
@@ -401,7 +442,8 @@ def r3_underflow(ctx, prog, rule_id='C17.R3', text='unsigned subtractions that f
             elif bad and f['qname'] in R3_EXCEPTIONS:
                 r.excepted(f['qname'], site, 'library invariant: ' + R3_EXCEPTIONS[f['qname']], file=f['file'], line=b['l'])
             elif bad:
-                r.violation(f['qname'], site, 'nothing on this path entails %s <= %s: if it is larger the unsigned difference wraps to a huge %s' % (bad[1], bad[0], 'size (allocation failure -> exception -> exit)' if sink in ('resize', 'wipe', 'new[]', 'reserve') else 'length/index (out-of-bounds access)'),
+                r.violation(f['qname'], site, 'nothing on this path entails %s <= %s: if it is larger the unsigned difference wraps to a huge %s' % (bad[1], bad[0], 'size (allocation failure -> exception -> exit)' if sink in ('resize', 'wipe', 'new[]', 'reserve') else (
+                    'length that the call reports to the application (a size query answers with it, and no real buffer is ever large enough)' if sink == 'reported length' else 'length/index (out-of-bounds access)')),
                             file=f['file'], line=b['l'], path=bad[2])
             else:
                 r.ok(f['qname'], site, '%d abstract states' % len(hits), file=f['file'], line=b['l'])
